@@ -136,6 +136,8 @@ PROPS["C27"] = {
 _SEL = "fuel_core_producer::block_producer::Producer::select_new_da_height"
 _C30_CUTS = ["std::backtrace::Backtrace::capture -> Backtrace::disabled() (anyhow errors carry no backtrace)",
              "alloc::fmt::format -> empty string (error messages)"]
+# a dropped anyhow::Error reaches std::backtrace's destructor loops through anyhow's own function-pointer table
+_BTDROP = [(r"drop_glue.*3std9backtrace", 1)]
 PROPS["C30"] = {
     "crate": "producer",
     "level": "model_checking",
@@ -148,9 +150,9 @@ PROPS["C30"] = {
     "assumptions": ["the relayer answers for heights in (previous, finalized]; a query outside that interval is itself reported as a violation",
                     "every future awaited by the function is immediately ready (the mock relayer never suspends)"],
     "harnesses": [
-        H("c30_select_n2", [_SEL], "<= 2 DA blocks ahead, all u64/u16 values", cuts=_C30_CUTS, timeout={"quick": 1500, "thorough": 3600}),
-        H("c30_select_n4", [_SEL], "<= 4 DA blocks ahead, all u64/u16 values", cuts=_C30_CUTS, timeout={"quick": 1800, "thorough": 3600}),
-        H("c30_select_n6", [_SEL], "<= 6 DA blocks ahead, all u64/u16 values", cuts=_C30_CUTS, tiers=("thorough",), timeout={"thorough": 7200}),
+        H("c30_select_n2", [_SEL], "<= 2 DA blocks ahead, all u64/u16 values", cuts=_C30_CUTS, timeout={"quick": 1500, "thorough": 3600}, mem_gb=16, unwindset=_BTDROP),
+        H("c30_select_n4", [_SEL], "<= 4 DA blocks ahead, all u64/u16 values", cuts=_C30_CUTS, timeout={"quick": 1800, "thorough": 3600}, mem_gb=16, unwindset=_BTDROP),
+        H("c30_select_n6", [_SEL], "<= 6 DA blocks ahead, all u64/u16 values", cuts=_C30_CUTS, tiers=("thorough",), timeout={"thorough": 7200}, mem_gb=16, unwindset=_BTDROP),
     ],
 }
 
